@@ -70,6 +70,9 @@ Subs == { SelQ(<<I(A), Item(Sub(NQ(<<I(P)>>, None)), "s")>>, T, None),
           SelQ(<<I(A), Item(Sub(SelQ(<<I(Col("c"))>>, Table(<<"<-", "u">>, ""), CmpE(">", Col("c"), LN(1)))), "s")>>, T, None),
           \* correlated through <- : u rows whose c exceeds the outer row's a
           SelQ(<<I(A), Item(Sub(SelQ(<<I(Col("c"))>>, Table(<<"<-", "u">>, ""), CmpE(">", Col("c"), ColP(<<"<-", "a">>)))), "s")>>, T, None),
+          \* a WITH clause inside a row-scoped subquery
+          SelQ(<<I(A), Item(Sub([NQ(<<I(P)>>, None) EXCEPT !.from = Table(<<"big">>, ""),
+                                    !.with = <<[name |-> "big", q |-> NQ(<<I(P)>>, CmpE(">", P, LN(1)))]>>]), "s")>>, T, None),
           SelQ(<<I(A)>>, T, InSub(A, SelQ(<<I(Col("c"))>>, Table(<<"<-", "u">>, ""), None))),
           SelQ(<<I(A)>>, T, Exists(NQ(<<Star>>, CmpE(">", P, LN(1))))),
           SelQ(<<I(A)>>, T, Exists(NQ(<<Star>>, CmpE(">", P, A)))),
